@@ -39,7 +39,9 @@ def c12_fingerprints(n: int, workers: int) -> dict[int, str]:
     """For C12 a run is a cell; the fingerprint is the digest of the per-file hashes it returns."""
     import hashlib, json
     from checks import c12
-    hs, envs = c12.pool_config(12345, 0, max(8, workers))
+    # a cell is pinned to the interpreter that owns its hash seed, so the pool is the same 16 interpreters whatever
+    # `workers` says; what varies between executions is the ORDER in which the cells are dispatched
+    hs, envs = c12.pool_config(12345, 0, 16)
     out: dict[int, str] = {}
     jobs = []
     for i in range(n):
@@ -50,6 +52,8 @@ def c12_fingerprints(n: int, workers: int) -> dict[int, str]:
         cell = cells[i % len(cells)]
         need = {"self": doc, "other0": others[0], "other1": others[1]}
         jobs.append({"fn": c12.FN_SEED, "args": {"cell": cell, "docs": need, "meta": "poetry", "config": {}}, "h": cell["h"], "timeout": 300, "_i": i})
+    if workers == 1:
+        jobs.reverse()
     with pool.Pool(hs, per_worker_env=envs) as p:
         def cb(job, env):
             if env.get("status") == "ok":
